@@ -321,6 +321,11 @@ class TrxconLink:
 		self.log.append("PHYIF %s -> %d" % (text[:60], rc))
 		exch = []
 		if rc != 0:
+			# refused by trx_if.c: nothing may have been put on the wire
+			out = self.sess.op("c", ("c ",))
+			if out is None:
+				return None, exch
+			self.emitted_although_refused = [bytes.fromhex(l[2:]) for l in out if l.startswith("C ") and l[2:] != "-"]
 			return rc, exch
 		for _ in range(8):
 			out = self.sess.op("c", ("c ",))
@@ -442,6 +447,23 @@ def trxcon_matrix(ctx, binary, r, rounds):
 							"(frame %d: %r Hz, expected %r)" % (n, fn, got, (wantma[mai][0] * 1000, wantma[mai][1] * 1000)),
 							channels_configured = len(getattr(getattr(t, "fh", None), "ma", [])))
 						break
+			# refused forms: an empty allocation, and one holding a channel number no band defines - an error code,
+			# nothing on the wire, and the transceiver keeps the allocation it had
+			t = link.node.trx
+			before = [(t.get_rx_freq(f), t.get_tx_freq(f)) for f in range(0, 4000, 97)]
+			for text in ("H1 %d 0 0" % r.randrange(64),
+					"H1 %d 0 %d %s" % (r.randrange(64), 3, " ".join(map(str, r.sample((base + 3, base + 9, r.choice((126, 300, 900))), 3))))):
+				link.emitted_although_refused = []
+				res = run_phy(text, 0)
+				if res is None:
+					break
+				ctx.count("trxcon_setfh_refused_forms")
+				if res[0] >= 0:
+					bad("trx_if.c accepts SETFREQ_H1 %r (rc=%d)" % (text, res[0]))
+				elif link.emitted_although_refused:
+					bad("trx_if.c refuses SETFREQ_H1 %r (rc=%d) but sent %r" % (text, res[0], link.emitted_although_refused[0][:60]))
+				elif [(t.get_rx_freq(f), t.get_tx_freq(f)) for f in range(0, 4000, 97)] != before:
+					bad("a refused SETFREQ_H1 changed the transceiver's hopping sequence")
 			run_phy("POWEROFF", 1)
 		finally:
 			rc, err = link.close()
